@@ -9,7 +9,7 @@
  *
  * canonical output produced here:
  *   ev <prog> <tok>...       line-number bookkeeping events of one finished compilation (hook in icode.c/compiler.c)
- *                              b | s:<line>:<addr>:<block> | f:<fileid>:<lines> | a:<fileid>:<name> | i:<base>:<size> | e:<psize>
+ *                              b | s:<line>:<addr>:<block> | r:<line>:<addr>:<block> (replayed by __INIT placement) | f:<fileid>:<lines> | a:<fileid>:<name> | i:<base>:<size> | e:<psize>
  *   fn <prog> <name>,...     function table of a program (index order)
  *   tab <prog> psize=<n> fi=<count>:<file>,... li=<len>:<line16>,... files=<id>:<name>,...
  *                            the real file_info / line_info tables (raw unsigned 16 bit values) and the program size
@@ -82,6 +82,9 @@ static void line_hook (int kind, long a, long b, long c, const char *s)
       break;
     case 's':
       tb_add (&evb, " s:%ld:%ld:%ld", a, b, c);
+      break;
+    case 'r':
+      tb_add (&evb, " r:%ld:%ld:%ld", a, b, c);
       break;
     case 'f':
       if (c)
